@@ -1,5 +1,6 @@
 import ChfVerif.Model.DiamClient
 import ChfVerif.Gen.DiamClient
+import ChfVerif.Gen.AbmfServer
 import Driver.CdrFileIO
 /-
   `peer scen <supi> <step>*` : what the client machines of Model/DiamClient.lean (with the configuration
@@ -22,6 +23,9 @@ structure World where
   rhq : List Nat := []        -- … rating peer (HR)
   abmfDead : Bool := false    -- the stored document is one the account-balance server cannot digest: no answer
   rfDead : Bool := false      -- … the rating server
+  abusy : Nat := 0            -- the account-balance server works on the subscriber's account until then: it handles the requests
+                              -- for one account one after the other (pkg/abmf lockAccount), so a request that reaches it
+                              -- earlier waits for the handler before it
 
 def popQ : List Nat → Nat × List Nat
   | [] => (0, [])
@@ -39,8 +43,13 @@ def wCallRf (w : World) : World × CallResult :=
 def wCallAbmf (w : World) : World × CallResult :=
   let (d, aq) := popQ w.aq
   let (h, ahq) := popQ w.ahq
-  let (sim, r) := call Chf.Gen.abmfClient w.abmf (w.now - w.abmf.now) (if w.abmfDead then never else d) w.copies h
-  ({ w with abmf := sim, aq := aq, ahq := ahq, now := max w.now sim.now }, r)
+  -- the request reaches the server once the connection is set up; its handler starts when the account is free, then takes d
+  let t := w.now + h
+  let start := max t w.abusy
+  let wait := if Chf.Gen.abmfServer.lockBeforeRead then start - t else 0
+  let (sim, r) := call Chf.Gen.abmfClient w.abmf (w.now - w.abmf.now) (if w.abmfDead then never else wait + d) w.copies h
+  let abusy := if w.abmfDead || !Chf.Gen.abmfServer.lockBeforeRead then w.abusy else start + d
+  ({ w with abmf := sim, aq := aq, ahq := ahq, now := max w.now sim.now, abusy := abusy }, r)
 
 def isTimeout : CallResult → Bool
   | .done (.timeout _) _ => true
